@@ -81,6 +81,7 @@ def d1(cx: Cx, ob: Ob) -> None:
 def d2(cx: Cx, ob: Ob) -> None:
     if ob.id == "C10-D2":
         deep_copies_are_deep(cx, ob)
+        copy_hooks_give_fresh_lists(cx, ob)
     for fn, ps in scope(cx, ob):
         o = Own(cx, fn, ps)
         ob.site(f"{fn.where} {fn.qualname}", f"converter inputs {ps}")
@@ -269,12 +270,83 @@ def deep_copies_are_deep(cx: Cx, ob: Ob) -> None:
 LISTS_ = ("prefix_synonyms", "uri_prefix_synonyms")
 
 
+def copy_hooks_give_fresh_lists(cx: Cx, ob: Ob) -> None:
+    """A ``__deepcopy__`` / ``model_copy`` of Record's own that starts from a SHALLOW copy (``self.__copy__()``,
+    ``copy.copy(self)``, ``super().model_copy(deep=False)`` on a request for a deep one) must give the result a list
+    of its own for BOTH synonym fields - an empty list is as mutable as a full one, and ``_merge`` appends in place."""
+    ci = cx.model.classes.get("curies.api.Record")
+    if ci is None:
+        return
+    for hook in ("__deepcopy__", "model_copy"):
+        m = ci.methods.get(hook)
+        if m is None:
+            continue
+        s = cx.summary(m, ob.id, full=True)
+        me = ("param", m.self_name)
+
+        def shallow_base(t):
+            if op(t) != "call":
+                return False
+            f = t[1]
+            kw = dict(t[3])
+            if op(f) == "attr" and f[1] == me and f[2] in ("__copy__", "copy"):
+                return True
+            if op(f) == "ext" and f[1] == "copy.copy" and t[2][:1] == (me,):
+                return True
+            if op(f) == "attr" and f[2] == "model_copy" and (f[1] == me or show(f[1]).startswith("super")):
+                d = kw.get("deep")
+                return d is None or is_const(d, False)
+            return False
+
+        def fresh(v):
+            return (op(v) == "call" and v[1] in (("builtin", "list"), ("builtin", "sorted"))) or (op(v) in ("list", "new") and (op(v) != "new" or v[1] == "list")) or (op(v) == "call" and op(v[1]) == "ext" and v[1][1] in ("copy.copy", "copy.deepcopy")) or (op(v) == "call" and callee_name(v) == "copy")
+
+        for t, ctx in s.returns():
+            if not shallow_base(t):
+                continue
+            if hook == "model_copy":
+                # only where a deep copy was asked for
+                deep_p = ("param", "deep")
+                asked = any(g.kind == "guard" and g.b is True and any(x == deep_p for x in subterms(g.a)) for g in ctx.guards)
+                if not asked:
+                    continue
+            got: set = set()
+            undecided = False
+            for ev, ectx in s.walk():
+                if ev.kind != "store":
+                    continue
+                a = ev.a
+                if op(a) == "attr" and a[1] == t and a[2] in LISTS_:
+                    (got.add(a[2]) if fresh(ev.b) else None)
+                elif op(a) == "item" and op(a[1]) == "attr" and a[1][1] == t and a[1][2] == "__dict__":
+                    k = a[2]
+                    if is_const(k) and k[1] in LISTS_ and fresh(ev.b):
+                        got.add(k[1])
+                    elif op(k) == "bv" and ectx.loops and op(ectx.loops[-1].b) in ("tuple", "list") and fresh(ev.b):
+                        got |= {x[1] for x in ectx.loops[-1].b[1] if is_const(x) and x[1] in LISTS_}
+                    else:
+                        undecided = True
+            ob.site(f"{m.where} {m.qualname}", f"copy hook starting from a shallow copy; own lists for {sorted(got)}")
+            missing = [f for f in LISTS_ if f not in got]
+            if missing and undecided:
+                ob.undecide(f"Record.{hook} starts from a shallow copy and replaces fields in a way that was not recognised")
+            elif missing:
+                ob.violate(
+                    m.qualname,
+                    where(m, ctx.path.out[2]) if ctx.path.out is not None and len(ctx.path.out) > 2 else m.where,
+                    f"Record.{hook} answers a request for a deep copy with a shallow one (`{show(t)[:50]}`) and gives the result no list of its own for {missing}: every `model_copy(deep=True)` in chain, get_subconverter, the remappings and rewire then returns records that share that list with the input's records, and a later merge into the result (Converter._merge appends in place) shows up in the input converter's records behind its lookup tables",
+                    witness="sub = c.get_subconverter(['a']); sub.add_prefix('a2', <a's URI prefix>, uri_prefix_synonyms=['http://new/'], merge=True): c.records lists http://new/ but c.compress('http://new/1') is None",
+                    detail=f"copy-hook-shares:{hook}:{'+'.join(missing)}",
+                )
+
+
 def check_no_aliasing(cx: Cx, ob: Ob) -> None:
     """D1-D3 together, for properties that need 'no converter shares records with another'."""
     d1(cx, ob)
     d2(cx, ob)
     d3(cx, ob)
     deep_copies_are_deep(cx, ob)
+    copy_hooks_give_fresh_lists(cx, ob)
     loaders_copy_their_input(cx, ob)
 
 
